@@ -22,7 +22,7 @@ FUNCTIONS = ["pedal.tifa.tifa_core.TifaCore.match_rso/combine_states/merge_paths
              "pedal.tifa.tifa_visitor.Tifa.visit/visit_If/visit_Assign/visit_Name/visit_Call/visit_While/visit_For", "pedal.tifa.contexts.NewPath", "pedal.tifa.tifa_analysis"]
 BOUNDS = {"quick": "shapes 0,1 fully; shapes 2,5 for 3 first atoms each; shapes 3,4,6 for 2 atom pairs each; loops; 8 whole programs",
           "thorough": "all 7 shapes x all atom tuples (up to 4 atoms from 6), every reachable abstract pre-state"}
-OUTSIDE = ["'over' / overwritten-variable diagnoses", "type-change issues", "comprehensions, classes, try/except, function calls",
+OUTSIDE = ["'over' / overwritten-variable diagnoses", "type-change issues", "comprehensions, classes, try/except, functions with parameters / return values / recursion",
            "blocks deeper than nesting 2 (covered by the induction argument, not by a run)", "unused-variable reporting from arbitrary pre-states (only the 8 whole programs)"]
 ASSUMPTIONS = ["semi-internal entry: name_map is planted and Tifa.visit called per statement (as process_ast does after reset)",
                "branch conditions are independent (every combination of outcomes is a path)", "FeedbackFieldWrapper copy-safety shim"]
@@ -68,6 +68,9 @@ def obligations(tier):
     obs += [Ob("C09.step4", F, "step4", 500, part=p, what=w + " (4-atom blocks)") for p in p4]
     for k in (0, 1):
         obs.append(Ob("C09.loops", F, "loops", 400, part=str(k), what="while (0) / for (1) with 0, 1, 2 iterations: no read that is unassigned on some execution goes unreported"))
+    cparts = ["0,0", "1,0"] if tier == "quick" else ["%d,%d" % (a, b) for a in range(4) for b in range(7)]
+    for cp in cparts:
+        obs.append(Ob("C09.calls", F, "calls", 600, part=cp, what="def f(): A / if c: B; f() else: C; f() / D -- no read of the module-level x (inside f at either call, or outside) that is unassigned on some execution goes unreported"))
     obs.append(Ob("C09.whole_program", F, "whole_program", 120, what="tifa_analysis on 8 whole programs: initialization issues and unused-variable report"))
     obs.append(Ob("C09.step_reach", F, "step_reach", 60, expect="refute", what="twin: a Possible Initialization Problem is produced"))
     return obs
